@@ -32,7 +32,11 @@ var zzPPrefixes = []string{
 func HarnessC28Parse() {
 	var text string
 	if zz.Bool() {
-		text = zz.String(zz.IntRange(0, 2))
+		m := 1
+		if zz.Tier() == 1 {
+			m = 2
+		}
+		text = zz.String(zz.IntRange(0, m))
 	} else {
 		p := zzPPrefixes[zz.Choice(len(zzPPrefixes))]
 		text = p + zz.String(zz.IntRange(0, 1))
